@@ -199,11 +199,14 @@ NoLeak(e) == \A i \in 1..Len(ExpectedNames(e)) :
                 Len(ExpectedNames(e)[i]) >= 5 => ~Occurs(ExpectedNames(e)[i], e.wire)
 
 (* C17: the padding behind the scoped PDU inside msgData is written for THIS message.  The library pads with zero octets;
-   any padding is accepted unless it reproduces four or more consecutive octets of what the session recently sent or
+   any padding is accepted (also a constant non-zero one) unless it reproduces four or more consecutive octets of what the session recently sent or
    received (ciphertext or plaintext): bytes of the private buffer that were never written for this message. *)
 AllZero(x) == \A i \in 1..Len(x) : x[i] = 0
+\* plaintext(s) of the datagram just sent / injected, WITHOUT their own padding: a constant non-zero padding legitimately recurs in
+\* every message and is not "recent traffic"; what must not reappear is ciphertext and the scoped PDUs themselves
+Unpadded(x) == LET sp == DecodePlain(x) IN IF sp.c = Accept /\ sp.padLen <= Len(x) THEN SubSeq(x, 1, Len(x) - sp.padLen) ELSE x
 DecryptOutputs(interp) == LET idx == {i \in 1..Len(interp) : interp[i].f = "decrypt"} IN
-                          IF idx = {} THEN <<>> ELSE <<interp[CHOOSE i \in idx : TRUE].out>>
+                          IF idx = {} THEN <<>> ELSE <<Unpadded(interp[CHOOSE i \in idx : TRUE].out)>>
 LastN(q, n) == IF Len(q) <= n THEN q ELSE SubSeq(q, Len(q) - n + 1, Len(q))
 PadOK(s, plain, padLen) ==
   LET pad == SubSeq(plain, Len(plain) - padLen + 1, Len(plain)) IN
